@@ -106,15 +106,18 @@ class FalseStore(MemStore):
 STORE_CLASSES = {"plain": MemStore, "empty-len": FalsyStore, "false": FalseStore}
 
 
-def term(v):
-    """Canonical string of a Herbrand value, the syntax of `V.toStr` in Model/Cache.lean."""
+def term(v, pv=None):
+    """Canonical string of a Herbrand value, the syntax of `V.toStr` in Model/Cache.lean.  `pv` (producers, driver command
+    `execp`): the content ("s", d, ver) a producer gave its dependent source is shown as what it was computed from."""
     if isinstance(v, tuple) and v and v[0] == "a":
-        return "a%d(%s)" % (v[1], ",".join(term(x) for x in v[2:]))
+        return "a%d(%s)" % (v[1], ",".join(term(x, pv) for x in v[2:]))
     if isinstance(v, tuple) and v and v[0] == "s":
+        if pv and (v[1], v[2]) in pv:
+            return term(pv[(v[1], v[2])], pv)
         return "s%d.%d" % (v[1], v[2])
     if isinstance(v, tuple) and len(v) == 3 and v[0] == "n":
         # what a normalising store made of `v[2]` (harness/norm_exec.py; `Exec.tagNorm` in Model/ExecNorm.lean)
-        return "a%d(%s)" % (1000000 + v[1], term(v[2]))
+        return "a%d(%s)" % (1000000 + v[1], term(v[2], pv))
     if isinstance(v, tuple) and len(v) == 2 and v[0] == "missing":
         return "missing%d" % v[1]
     return "?%r" % (v,)
@@ -238,6 +241,7 @@ def build_cache(spec, env):
     b.N, b.stores, b.ver = {}, {}, {}
     b.failing = set()
     b.payload = {}
+    b.pv = {}              # (dependent source, version) -> what its producer computed that content from
     kinds = {nd["id"]: nd["kind"] for nd in spec["nodes"]}
     b.kinds = kinds
 
@@ -250,6 +254,7 @@ def build_cache(spec, env):
             if writes is not None:
                 b.ver[writes] = b.ver.get(writes, 0) + 1
                 b.payload[writes] = ("a", i) + tuple(args)      # what the producer computed this content from
+                b.pv[(writes, b.ver[writes])] = b.payload[writes]
                 st = b.stores[writes]
                 st.value, st.mtime = ("s", writes, b.ver[writes]), env.tick()
                 env.rec.add("write", writes, st.value, st.mtime)
@@ -366,6 +371,32 @@ def exec_applicable(spec):
     return not any(nd["kind"] in ("producer", "dsource", "token") or "feeds" in nd for nd in spec["nodes"])
 
 
+def execp_applicable(spec, b, out):
+    """The execution model with producers (Model/ExecProd.lean, `SetupP`): every dependent source has exactly one producer,
+    wired directly (no ordering token), private to it (nothing else consumes or depends on the producer, and it is not the
+    requested output), and every registered node upstream of the source is upstream of the producer too."""
+    nodes = spec["nodes"]
+    if any(nd["kind"] == "token" or "feeds" in nd or "fed_by" in nd for nd in nodes):
+        return False
+    prods = [nd for nd in nodes if nd["kind"] == "producer"]
+    ds = [nd["id"] for nd in nodes if nd["kind"] == "dsource"]
+    if not prods or sorted(nd["writes"] for nd in prods) != sorted(ds):
+        return False
+    for nd in prods:
+        j, d = nd["id"], nd["writes"]
+        if j not in nodes[d]["deps"]:
+            return False
+        if any(j in other["args"] or j in other["deps"] for other in nodes if other["id"] != d):
+            return False
+        if out and j in out:
+            return False
+        up_d = {q for q in nx.ancestors(b.graph, d) if q in b.stores}
+        up_j = nx.ancestors(b.graph, j)
+        if not up_d <= up_j:
+            return False
+    return True
+
+
 def exec_request(b, snap, c0, stale, out, events, value, ok, cmd="exec"):
     """One `exec` request for the Lean driver and the reply the REAL run corresponds to: the logical plan (plus the gather of
     the requested output), the registry in mapping order, the stale set the run computed, the store state before the run,
@@ -390,27 +421,41 @@ def exec_request(b, snap, c0, stale, out, events, value, ok, cmd="exec"):
         outtok = str(n)
     inv = {id(nn): i for i, nn in b.N.items()}
     reg = " ".join("%d:%s" % (inv[id(nn)], "S" if rv.is_source else "N") for nn, rv in b.reg.mapping.items())
-    world = " ".join("%d=%s@%d" % (i, term(v), t) for i, (v, t) in sorted(snap.items()) if t is not None)
+    pv = b.pv if cmd == "execp" else None
+    producer_of = {nd["writes"]: nd["id"] for nd in spec["nodes"] if nd["kind"] == "producer"} if cmd == "execp" else {}
+
+    def T(v):                      # the module's `term`, with the producers' contents spelled out
+        return term(v, pv)
+    world = " ".join("%d=%s@%d" % (i, T(v), t) for i, (v, t) in sorted(snap.items()) if t is not None)
     order, slots = [], []
     for k, e in enumerate(events):
         if e[0] == "ret":
+            if e[1] in producer_of.values():
+                continue           # a producer's effects (slot and source) are placed where its source was rewritten
             order.append("o%d" % e[1])
-            slots.append("o%d=%s" % (e[1], term(e[2])))
+            slots.append("o%d=%s" % (e[1], T(e[2])))
         elif e[0] == "readval":
             order.append("r%d" % e[1])
-            slots.append("r%d=%s" % (e[1], term(e[2])))
+            slots.append("r%d=%s" % (e[1], T(e[2])))
         elif e[0] == "write":
-            order.append("w%d" % e[1])
+            if e[1] in producer_of:
+                j = producer_of[e[1]]
+                order.append("o%d" % j)
+                slots.append("o%d=%s" % (j, T(e[2])))
+            else:
+                order.append("w%d" % e[1])
     if ok and out is not None and out:
         order.append("o%d" % n)
-        slots.append("o%d=a%d(%s)" % (n, n, ",".join(term(v) for v in value)))
-    stores = sorted("%d=%s@%d" % (i, term(st.value), st.mtime) for i, st in b.stores.items() if st.mtime is not None)
+        slots.append("o%d=a%d(%s)" % (n, n, ",".join(T(v) for v in value)))
+    stores = sorted("%d=%s@%d" % (i, T(st.value), st.mtime) for i, st in b.stores.items() if st.mtime is not None)
     line = "%s | %s | %s | %s | %s | %s | %s | %d | %s" % (
         cmd, " ".join(nodes), " ".join(edges), reg, " ".join(str(i) for i in sorted(stale) if i in b.stores), outtok, world, c0,
         " ".join(order))
+    if cmd == "execp":
+        line += " | " + " ".join("%d>%d" % (j, d) for d, j in sorted(producer_of.items()))
     want = "stores %s | slots %s" % (" ".join(stores), " ".join(slots))
     if ok:
-        want += " | out %s" % ("-" if out is None else "a%d(%s)" % (n, ",".join(term(v) for v in value)))
+        want += " | out %s" % ("-" if out is None else "a%d(%s)" % (n, ",".join(T(v) for v in value)))
     return line, want
 
 
@@ -517,6 +562,12 @@ def run_history(spec, hseed, steps, driver, props, mode="prim", stress=False):
                 q(xl, "prefix", xw, "execution model: values computed, read and stored by this run")
                 stats["exec_runs"] = stats.get("exec_runs", 0) + 1
                 stats["exec_effects"] = stats.get("exec_effects", 0) + sum(1 for e in events if e[0] in ("ret", "readval", "write"))
+            elif execp_applicable(spec, b, out):
+                xl, xw = exec_request(b, snap_before, c0_before, stale_before, out, events, rr.value if ok else None, ok, cmd="execp")
+                q(xl, "prefix", xw, "execution model with producers: values computed, read and stored by this run")
+                stats["execp_runs"] = stats.get("execp_runs", 0) + 1
+                stats["execp_sources_rewritten"] = stats.get("execp_sources_rewritten", 0) + sum(
+                    1 for e in events if e[0] == "write" and b.kinds[e[1]] == "dsource")
             # C08: "the next successful run produces correct outputs and stored values" — after a run of this history was
             # cut short or failed, the from-scratch checks on a later successful run are C08's as well
             p3 = "C03" if "C03" in props else ("C08" if ("C08" in props and had_cut) else None)
